@@ -7,6 +7,7 @@ import (
 	"crypto/tls"
 	"encoding/json"
 	"fmt"
+	"github.com/sassoftware/relic/v8/lib/compresshttp"
 	"io"
 	"net/http"
 	"net/http/httptest"
@@ -552,4 +553,60 @@ func TestC09_AbandonedAttempt(t *testing.T) {
 		done()
 	}
 	rec.Sample("abandoned-attempt", map[string]any{"formats": "jar apk msi macho dmg pe", "repetitions_each": reps})
+}
+
+// TestC09_AbandonedCompressedAttempt: the client compresses the upload in a helper
+// goroutine that reads the input file. When an attempt is abandoned (server answered
+// early, connection reset) and the next attempt rewinds the same file, what the next
+// server receives must still be the whole input, for every negotiated encoding.
+func TestC09_AbandonedCompressedAttempt(t *testing.T) {
+	reps := evid.EnvInt("VERIF_C09_COMPRESS_REPS", 150)
+	dir, done := scratch()
+	defer done()
+	data := make([]byte, 3<<20)
+	for i := range data {
+		data[i] = byte(i*31 + i/4093)
+	}
+	p := filepath.Join(dir, "big.ps1")
+	os.WriteFile(p, data, 0o644)
+	want := sha256.Sum256(data)
+	for _, enc := range []string{"gzip", "x-snappy-framed"} {
+		f, err := os.Open(p)
+		if err != nil {
+			t.Fatal(err)
+		}
+		for i := 0; i < reps; i++ {
+			attempt := func(readBytes int) [32]byte {
+				f.Seek(0, 0) // what the default transform's GetReader does
+				req, _ := http.NewRequest("POST", "http://server.invalid/sign", io.NopCloser(f))
+				if err := compresshttp.CompressRequest(req, enc); err != nil {
+					t.Fatal(err)
+				}
+				var sum [32]byte
+				if readBytes >= 0 {
+					io.CopyN(io.Discard, req.Body, int64(readBytes))
+					req.Body.Close() // the transport gives up on this attempt
+					return sum
+				}
+				srv := &http.Request{Header: req.Header, Body: req.Body}
+				if err := compresshttp.DecompressRequest(srv); err != nil {
+					t.Fatal(err)
+				}
+				h := sha256.New()
+				io.Copy(h, srv.Body)
+				req.Body.Close()
+				copy(sum[:], h.Sum(nil))
+				return sum
+			}
+			attempt((i * 7919) % 200000)
+			got := attempt(-1)
+			rec.Case(fmt.Sprintf("abandon-compressed|%s|%d", enc, i), "abandoned-compressed-attempt/"+enc, true)
+			if got != want {
+				evid.SaveCase("TestC09_AbandonedCompressedAttempt", map[string]any{"encoding": enc, "repetition": i, "first_attempt_read": (i * 7919) % 200000})
+				t.Fatalf("%s: after an abandoned compressed attempt the next attempt delivered different bytes than the input (repetition %d)", enc, i)
+			}
+		}
+		f.Close()
+	}
+	rec.Sample("abandoned-compressed-attempt", map[string]any{"encodings": "gzip x-snappy-framed", "repetitions_each": reps, "input_bytes": len(data)})
 }
